@@ -1224,7 +1224,7 @@ def apply_mut(content, live, op):
             elif k == "set_status":
                 content[i][j]["status"] = v
                 if live is not None:
-                    live[i][j].status = v
+                    live[i][j].status = float("nan") if v is None else v
             else:
                 content[i][j]["charge"] = v
                 if live is not None:
@@ -1300,10 +1300,29 @@ def gen_session(rng):
     par = gen_params(rng)
     prior, _ = gen_prior(rng)
     steps = [dict(mut=[], data="new", path="a", pre=("keep" if prior is None else dict(text=prior)), read=rng.random() < 0.4, **par)]
+    repair = []
     for _ in range(rng.choice([1, 1, 2, 2, 3])):
         r = rng.random()
         data = "same" if r < 0.6 else "new" if r < 0.8 else "new-outer"
         muts = []
+        for op in repair:  # the call before this one raised midway (unset status); the caller repairs the data and calls again
+            if apply_mut(content, None, op):
+                muts.append(op)
+        repair = []
+        if rng.random() < 0.3:
+            # a call that FAILS MIDWAY: a status in the LAST non-empty event is unset, so the call raises ValueError after
+            # the earlier events have been processed; the next call (data repaired) must not see anything of it
+            cand = [i for i, ev in enumerate(content) if ev]
+            if cand:
+                i = cand[-1]
+                j = rng.randrange(len(content[i]))
+                old = content[i][j]["status"]
+                op = ["set_status", i, j, None]
+                if old is not None and apply_mut(content, None, op):
+                    muts.append(op)
+                    repair = [["set_status", i, j, old]]
+                    if data == "new":
+                        data = "same"
         for _m in range(rng.choice([0, 1, 1, 1, 2, 3]) if data != "new" or rng.random() < 0.5 else 0):
             op = gen_mutation(rng, content)
             if apply_mut(content, None, op):
